@@ -80,7 +80,7 @@ def exprC (sc : Scalar) (e : Expr) : Sexp :=
   let text := render ps
   let lexed := lexC text
   let (ok, _, _) := roundtripExprC sc e
-  .list [.atom "res", S text, B (lexed == toks ps), B ok, B (wfC sc e), kindSexp (kindOf e), B (noFuse e)]
+  .list [.atom "res", S text, B (lexed == toks ps), B ok, B (wfC sc e), kindSexp (kindOf e), B true]
 
 def exprPy (e : Expr) : Sexp :=
   let ps := piecesPy e
@@ -152,13 +152,18 @@ def dispatch (req : Sexp) : Except String Sexp :=
       | q => throw s!"bad precision {q}"
     | "numcheck", [x] => do
       let v ← x.asRat
-      return .list [S (fmtFloat16 v), S (reprFloat v)]
+      return .list [S (fmtFloat16 v), S (reprFloat v), Sexp.ofRat (litValue 16 v), Sexp.ofRat (litValueR v)]
     | "readcheck", [t] => do
       match readNum (← t.asAtom).toList with
       | some v => return .list [.atom "ok", Sexp.ofRat v, Sexp.ofRat (round64 v)]
       | none => return .list [.atom "fail"]
     | "fmtcomplex", [re, im] => do return S (strComplex (← re.asRat) (← im.asRat))
-    | "litvalue", [p, x] => do return Sexp.ofRat (litValue (← p.asNat) (← x.asRat))
+    | "litvalue", [p, x] => do
+      match ← p.asAtom with
+      | "r" => return Sexp.ofRat (litValueR (← x.asRat))
+      | q => match q.toNat? with
+        | some n => return Sexp.ofRat (litValue n (← x.asRat))
+        | none => throw s!"bad precision {q}"
     | "readnum", [t] => do
       match readNum (← t.asAtom).toList with
       | some v => return .list [.atom "ok", Sexp.ofRat v]
@@ -169,6 +174,9 @@ def dispatch (req : Sexp) : Except String Sexp :=
       let sc ← scalarOf dt
       let (ok, got, want) := roundtripExprC sc (← readExpr x)
       if ok then return .list [.atom "ok"] else return .list [.atom "mismatch", optPT got, ptSexp want]
+    | "roundtripC", [x] => do
+      let (ok, got, want) := roundtripExprC .f64 (← readExpr x)
+      if ok then return .list [.atom "ok"] else return .list [.atom "mismatch", optPT got, ptSexp want]
     | "roundtripPy", [x] => do
       let (ok, got, want) := roundtripExprPy (← readExpr x)
       if ok then return .list [.atom "ok"] else return .list [.atom "mismatch", optPT got, ptSexp want]
@@ -178,7 +186,7 @@ def dispatch (req : Sexp) : Except String Sexp :=
     | "wt", [dt, x] => do
       let sc ← scalarOf dt
       let e ← readExpr x
-      return .list [B (wfC sc e), kindSexp (kindOf e), B (noFuse e)]
+      return .list [B (wfC sc e), kindSexp (kindOf e)]
     | _, _ => .error s!"unknown command or bad arity: {cmd}"
   | _ => .error "request must be a list"
 
